@@ -5,21 +5,23 @@ EventLoopScheduler / NewThreadScheduler is added by the E3 harness).
 """
 from __future__ import annotations
 
-from .. import core, periodic_vt
+from .. import core, ilvrun, periodic_ilv, periodic_vt
 
 PROPERTY = "C35"
-LEVEL = "exploration"
+LEVEL = "model_checking"
 META = {
-    "engine": "vtx",
+    "engine": "ilv",
     "technique": "bounded-exhaustive enumeration of (scheduler, wrapper, period, dispose instant, raise position, work inside "
     "the action) on real virtual-time schedulers against an arithmetic reference (k*period, threaded state)",
     "text": "schedule_periodic on VirtualTimeScheduler, TestScheduler, HistoricalScheduler and CatchScheduler over each of them, "
     "and reactivex.interval / periodic reactivex.timer on them: every period of the list, dispose at every instant of the grid up "
     "to the horizon (from inside the run and from outside), raise at every tick up to K; invocations must be exactly at "
     "k*period with the state returned by the previous invocation, none after dispose() returned, none after a raise; "
-    "interval/timer must emit 0,1,2,.. at d0+i*period. Virtual-time part only.",
+    "interval/timer must emit 0,1,2,.. at d0+i*period. E3 part: the same on EventLoopScheduler, NewThreadScheduler and CatchScheduler over "
+    "them under the controlled clock, all interleavings of the disposing thread with the scheduler threads within the preemption/tick bounds: state threaded, no tick before k*period, "
+    "at most the tick in flight after dispose() returned, none after a raise, handler called once.",
     "note": "trusted: CPython, the virtual-time queue discipline (C28); a tick and a dispose that are both actions of the same "
-    "instant may come in either order (R3). Event-loop / new-thread schedulers are not covered by this part.",
+    "instant may come in either order (R3). Threaded schedulers: preemption at sync operations and line boundaries of the focus files.",
 }
 RULE = (
     "cases = (part A: scheduler kind, bare|CatchScheduler verdict, period, dispose spec, raise tick, work) and (part B: scheduler "
@@ -35,10 +37,17 @@ def shard(part: core.Part, shard_i, nshards, tier, seed, deadline):
 
 
 def run(ctx: core.Ctx):
-    ctx.bounds = periodic_vt.bounds_virtual(ctx.tier)
-    ctx.assumptions = ["virtual-time part only; real-thread periodic schedulers are explored by the E3 part", "queue discipline of the virtual-time schedulers (C28)"]
+    ctx.bounds = dict(periodic_vt.bounds_virtual(ctx.tier))
+    ctx.bounds["e3"] = "EventLoop/NewThread (+CatchScheduler) periodic, PB 1 TB 1" if ctx.tier == "quick" else "PB 2 TB 1"
+    ctx.assumptions = ["queue discipline of the virtual-time schedulers (C28)", "E3 part: controlled clock and threads (vf/ilv.py), preemption at sync operations and line boundaries of periodicscheduler.py/newthreadscheduler.py/catchscheduler.py"]
     ctx.sharded(shard)
+    virt = ctx.total.evals
+    ctx.sharded(periodic_ilv.shard, nshards=len(periodic_ilv.harnesses(ctx.tier)))
+    ilvrun.finish_cov(ctx, ctx.total, extra_states=virt, extra_transitions=virt)
+    ctx.cov["states_note"] = "states = complete thread schedules explored (E3) + virtual-time cases (each a complete run of the real scheduler); transitions = scheduling decisions + virtual-time cases"
 
 
 def replay(case):
+    if isinstance(case, dict) and "harness" in case:
+        return periodic_ilv.replay(case)
     return periodic_vt.replay_virtual(case)
